@@ -80,8 +80,13 @@ def render(case):
         L.append("    static int s = 0;")
         L.append("    int m0_%d() { return self.v * %d + %d; }" % (i, a, b))
         L.append("    void m1_%d(int k) { self.v = self.v + k * %d; }" % (i, c))
-        L.append("    int m2_%d() { s = s + %d; return s; }" % (i, d))
-        L.append("    int m3_%d(int k) { self.v = self.v + k * %d; return self.v * %d + %d; }" % (i, c, a, b))
+        if (a + b + c + d + i + j) % 2 == 0:
+            L.append("    int m2_%d() { s = s + %d; return s; }" % (i, d))
+            L.append("    int m3_%d(int k) { self.v = self.v + k * %d; return self.v * %d + %d; }" % (i, c, a, b))
+        else:
+            # the same meaning, written with calls of the receiver's own methods (self.m()) before the impl static is used
+            L.append("    int m2_%d() { int t = self.m0_%d(); s = s + %d; self.m1_%d(0); return s + t - self.m0_%d(); }" % (i, i, d, i, i))
+            L.append("    int m3_%d(int k) { self.m1_%d(k); return self.m0_%d(); }" % (i, i, i))
         L.append("}")
     for i in range(ni):
         L.append("void obs%d(I%d x) { x.m1_%d(1); println(x.m0_%d()); }" % (i, i, i, i))
@@ -119,6 +124,31 @@ def render(case):
             L.append("    obs%d(p%s);" % (ifv[int(f[1])], f[1]))
     L += ["    println(\"END\");", "    return 0;", "}"]
     return "\n".join(L) + "\n"
+
+
+PRIM_FID = "primitive_receiver_statics_and_self"
+
+
+def primitive_cases():
+    """receivers of a primitive type (impl I for int): fixed programs, expected output stated from the property"""
+    hdr = ("interface Counter { int bump(); int peek(); int add(int k); };\n"
+           "impl Counter for int {\n    static int total = 0;\n    int bump() { total = total + 1; return total; }\n"
+           "    int peek() { return self; }\n    int add(int k) { total = total + self + k; return total; }\n};\n")
+    st = ("struct Box { int v; };\nimpl Counter for Box {\n    static int total = 100;\n    int bump() { total = total + 1; return total; }\n"
+          "    int peek() { return self.v; }\n    int add(int k) { total = total + self.v + k; return total; }\n};\n")
+    cases = []
+
+    def add(cid, pre, body, out):
+        cases.append({"id": cid, "program": pre + "int main() {\n" + body + "    println(\"END\");\n    return 0;\n}\n",
+                      "expect_stdout": "".join("%s\n" % x for x in out) + "END\n"})
+    add("var", hdr, "    int x = 5;\n    Counter c = x;\n    println(c.peek());\n    println(c.bump());\n    println(c.bump());\n", [5, 1, 2])
+    add("literal", hdr, "    Counter c = 5;\n    println(c.peek());\n    println(c.add(2));\n    println(c.add(0));\n", [5, 7, 12])
+    add("two-vars-share", hdr, "    Counter c = 5;\n    Counter d = 7;\n    println(c.bump());\n    println(d.bump());\n    println(c.add(1));\n    println(d.peek());\n", [1, 2, 8, 7])
+    add("param", hdr + "int use(Counter p) { return p.bump() * 10 + p.peek(); }\n",
+        "    Counter c = 4;\n    println(use(c));\n    println(use(c));\n    println(c.bump());\n", [14, 24, 3])
+    add("struct-and-int", hdr + st, "    Box b;\n    b.v = 3;\n    Counter c = 5;\n    Counter d = b;\n    println(c.bump());\n    println(d.bump());\n"
+        "    println(c.add(1));\n    println(d.add(1));\n    println(c.peek());\n    println(d.peek());\n", [1, 101, 7, 105, 5, 3])
+    return cases
 
 
 def main(a):
@@ -162,7 +192,25 @@ def main(a):
                         {"case": [sorted([list(k2), list(v2)] for k2, v2 in c[0].items()), c[1], c[2], c[3], c[4], c[5]],
                          "program": progs[k], "expected_stdout": exp, "expected_class": cls, "impl_stdout": o[0],
                          "impl_exit_class": o[1], "impl_stderr": o[2]})
-    v.coverage.update({"evaluations": len(cases), "distinct_nontrivial": len(nontrivial),
+    # receivers of a primitive type
+    findings = common.load_findings(PID)
+    listed = {f["id"]: f for f in findings}
+    pc = primitive_cases()
+    po = common.run_programs(exe, [c["program"] for c in pc], timeout=10)
+    pknown = 0
+    for c, o in zip(pc, po):
+        if o[0] == c["expect_stdout"] and o[1] == "ok":
+            continue
+        if PRIM_FID in listed:
+            pknown += 1
+            continue
+        v.violation("primitive receiver case %s: expected %r got %r (%s)" % (c["id"], c["expect_stdout"], o[0][-100:], o[1]),
+                    {"case_id": c["id"], "program": c["program"], "expected_stdout": c["expect_stdout"], "expected_class": "ok",
+                     "impl_stdout": o[0], "impl_exit_class": o[1], "impl_stderr": o[2]})
+    if pknown:
+        v.known_finding(listed[PRIM_FID]["what"] + " [%d of %d fixed programs]" % (pknown, len(pc)))
+    v.coverage.update({"primitive_receiver_programs": len(pc)})
+    v.coverage.update({"evaluations": len(cases) + len(pc), "distinct_nontrivial": len(nontrivial),
                        "rule": "random programs over <= 3 interfaces x <= 4 struct types each interface's methods m0_i/m1_i/m2_i implemented by several types (a type may not implement two interfaces with a common method name); "
                                "sequences of 6..30 operations (assign concrete object to interface variable, observer, mutator "
                                "through self, impl-static counter, field read/write, by-value interface parameter); ~10% of "
@@ -170,5 +218,7 @@ def main(a):
                                "distinct expected output of a case with >= 2 impls",
                        "samples": samples, "rejected_assignment_cases": nrej, "exhaustive": False})
     v.assumptions += ["methods are called through interface variables, pointers to interface variables and by-value interface "
-                      "parameters (direct calls on the concrete object are not generated)"]
+                      "parameters (direct calls on the concrete object are not generated)",
+                      "half of the impl blocks are rendered with m2 / m3 written through calls of the receiver's own methods "
+                      "(self.m0(), self.m1(k)); the model gives both renderings the same meaning"]
     return v.finish()
